@@ -102,7 +102,11 @@ def cases(tier, sd):
 
 
 def make(p, b, shape, d):
-    return harness.make_fd(shape, (-0.3, 0.2, 1.1), d, order=p, boundary=b)
+    # the order as the caller happens to hold it: a Python int, a NumPy integer
+    # (an element of an array, an HDF5 attribute) or a float
+    how = (int(np.prod(shape)) + p) % 3
+    order = [int(p), np.int64(p), float(p)][how]
+    return harness.make_fd(shape, (-0.3, 0.2, 1.1), d, order=order, boundary=b)
 
 
 def run_operator(spec, res):
